@@ -517,6 +517,7 @@ class SimProc:
 
     def communicate(self, input=None, timeout=None):
         S = CTX.S
+        self.inv['timeout_arg'] = timeout
         dl = [False]
         h = None
         if timeout is not None:
